@@ -780,7 +780,11 @@ where
                         "com" => self.scheduler_ctx.committed_idx(), "invalid" => invalid_transaction,
                         "head_at_start" => started_at_commit_head);
                     if started_at_commit_head {
-                        if invalid_transaction {
+                        // Workers execute with the nonce check disabled. With the check enabled for
+                        // the block, in-order execution may reject this transaction before it ever
+                        // reaches the failing read or call, so only ordered revalidation from this
+                        // transaction can tell whether the error decides the block.
+                        if invalid_transaction || !self.cfg.disable_nonce_check {
                             self.abort(AbortReason::FallbackSequential);
                         } else {
                             self.abort(AbortReason::FatalEvmError(txid));
